@@ -3,6 +3,41 @@
 From ZV Require Import Common.Exec Ser.SerdeModel.
 Local Open Scope N_scope.
 
+(* named byte constants: the case files spell bytes as x00 .. xff (identifiers elaborate several
+   times faster than numerals, and the case files are mostly bytes) *)
+Definition x00 : N := 0. Definition x01 : N := 1. Definition x02 : N := 2. Definition x03 : N := 3. Definition x04 : N := 4. Definition x05 : N := 5. Definition x06 : N := 6. Definition x07 : N := 7.
+Definition x08 : N := 8. Definition x09 : N := 9. Definition x0a : N := 10. Definition x0b : N := 11. Definition x0c : N := 12. Definition x0d : N := 13. Definition x0e : N := 14. Definition x0f : N := 15.
+Definition x10 : N := 16. Definition x11 : N := 17. Definition x12 : N := 18. Definition x13 : N := 19. Definition x14 : N := 20. Definition x15 : N := 21. Definition x16 : N := 22. Definition x17 : N := 23.
+Definition x18 : N := 24. Definition x19 : N := 25. Definition x1a : N := 26. Definition x1b : N := 27. Definition x1c : N := 28. Definition x1d : N := 29. Definition x1e : N := 30. Definition x1f : N := 31.
+Definition x20 : N := 32. Definition x21 : N := 33. Definition x22 : N := 34. Definition x23 : N := 35. Definition x24 : N := 36. Definition x25 : N := 37. Definition x26 : N := 38. Definition x27 : N := 39.
+Definition x28 : N := 40. Definition x29 : N := 41. Definition x2a : N := 42. Definition x2b : N := 43. Definition x2c : N := 44. Definition x2d : N := 45. Definition x2e : N := 46. Definition x2f : N := 47.
+Definition x30 : N := 48. Definition x31 : N := 49. Definition x32 : N := 50. Definition x33 : N := 51. Definition x34 : N := 52. Definition x35 : N := 53. Definition x36 : N := 54. Definition x37 : N := 55.
+Definition x38 : N := 56. Definition x39 : N := 57. Definition x3a : N := 58. Definition x3b : N := 59. Definition x3c : N := 60. Definition x3d : N := 61. Definition x3e : N := 62. Definition x3f : N := 63.
+Definition x40 : N := 64. Definition x41 : N := 65. Definition x42 : N := 66. Definition x43 : N := 67. Definition x44 : N := 68. Definition x45 : N := 69. Definition x46 : N := 70. Definition x47 : N := 71.
+Definition x48 : N := 72. Definition x49 : N := 73. Definition x4a : N := 74. Definition x4b : N := 75. Definition x4c : N := 76. Definition x4d : N := 77. Definition x4e : N := 78. Definition x4f : N := 79.
+Definition x50 : N := 80. Definition x51 : N := 81. Definition x52 : N := 82. Definition x53 : N := 83. Definition x54 : N := 84. Definition x55 : N := 85. Definition x56 : N := 86. Definition x57 : N := 87.
+Definition x58 : N := 88. Definition x59 : N := 89. Definition x5a : N := 90. Definition x5b : N := 91. Definition x5c : N := 92. Definition x5d : N := 93. Definition x5e : N := 94. Definition x5f : N := 95.
+Definition x60 : N := 96. Definition x61 : N := 97. Definition x62 : N := 98. Definition x63 : N := 99. Definition x64 : N := 100. Definition x65 : N := 101. Definition x66 : N := 102. Definition x67 : N := 103.
+Definition x68 : N := 104. Definition x69 : N := 105. Definition x6a : N := 106. Definition x6b : N := 107. Definition x6c : N := 108. Definition x6d : N := 109. Definition x6e : N := 110. Definition x6f : N := 111.
+Definition x70 : N := 112. Definition x71 : N := 113. Definition x72 : N := 114. Definition x73 : N := 115. Definition x74 : N := 116. Definition x75 : N := 117. Definition x76 : N := 118. Definition x77 : N := 119.
+Definition x78 : N := 120. Definition x79 : N := 121. Definition x7a : N := 122. Definition x7b : N := 123. Definition x7c : N := 124. Definition x7d : N := 125. Definition x7e : N := 126. Definition x7f : N := 127.
+Definition x80 : N := 128. Definition x81 : N := 129. Definition x82 : N := 130. Definition x83 : N := 131. Definition x84 : N := 132. Definition x85 : N := 133. Definition x86 : N := 134. Definition x87 : N := 135.
+Definition x88 : N := 136. Definition x89 : N := 137. Definition x8a : N := 138. Definition x8b : N := 139. Definition x8c : N := 140. Definition x8d : N := 141. Definition x8e : N := 142. Definition x8f : N := 143.
+Definition x90 : N := 144. Definition x91 : N := 145. Definition x92 : N := 146. Definition x93 : N := 147. Definition x94 : N := 148. Definition x95 : N := 149. Definition x96 : N := 150. Definition x97 : N := 151.
+Definition x98 : N := 152. Definition x99 : N := 153. Definition x9a : N := 154. Definition x9b : N := 155. Definition x9c : N := 156. Definition x9d : N := 157. Definition x9e : N := 158. Definition x9f : N := 159.
+Definition xa0 : N := 160. Definition xa1 : N := 161. Definition xa2 : N := 162. Definition xa3 : N := 163. Definition xa4 : N := 164. Definition xa5 : N := 165. Definition xa6 : N := 166. Definition xa7 : N := 167.
+Definition xa8 : N := 168. Definition xa9 : N := 169. Definition xaa : N := 170. Definition xab : N := 171. Definition xac : N := 172. Definition xad : N := 173. Definition xae : N := 174. Definition xaf : N := 175.
+Definition xb0 : N := 176. Definition xb1 : N := 177. Definition xb2 : N := 178. Definition xb3 : N := 179. Definition xb4 : N := 180. Definition xb5 : N := 181. Definition xb6 : N := 182. Definition xb7 : N := 183.
+Definition xb8 : N := 184. Definition xb9 : N := 185. Definition xba : N := 186. Definition xbb : N := 187. Definition xbc : N := 188. Definition xbd : N := 189. Definition xbe : N := 190. Definition xbf : N := 191.
+Definition xc0 : N := 192. Definition xc1 : N := 193. Definition xc2 : N := 194. Definition xc3 : N := 195. Definition xc4 : N := 196. Definition xc5 : N := 197. Definition xc6 : N := 198. Definition xc7 : N := 199.
+Definition xc8 : N := 200. Definition xc9 : N := 201. Definition xca : N := 202. Definition xcb : N := 203. Definition xcc : N := 204. Definition xcd : N := 205. Definition xce : N := 206. Definition xcf : N := 207.
+Definition xd0 : N := 208. Definition xd1 : N := 209. Definition xd2 : N := 210. Definition xd3 : N := 211. Definition xd4 : N := 212. Definition xd5 : N := 213. Definition xd6 : N := 214. Definition xd7 : N := 215.
+Definition xd8 : N := 216. Definition xd9 : N := 217. Definition xda : N := 218. Definition xdb : N := 219. Definition xdc : N := 220. Definition xdd : N := 221. Definition xde : N := 222. Definition xdf : N := 223.
+Definition xe0 : N := 224. Definition xe1 : N := 225. Definition xe2 : N := 226. Definition xe3 : N := 227. Definition xe4 : N := 228. Definition xe5 : N := 229. Definition xe6 : N := 230. Definition xe7 : N := 231.
+Definition xe8 : N := 232. Definition xe9 : N := 233. Definition xea : N := 234. Definition xeb : N := 235. Definition xec : N := 236. Definition xed : N := 237. Definition xee : N := 238. Definition xef : N := 239.
+Definition xf0 : N := 240. Definition xf1 : N := 241. Definition xf2 : N := 242. Definition xf3 : N := 243. Definition xf4 : N := 244. Definition xf5 : N := 245. Definition xf6 : N := 246. Definition xf7 : N := 247.
+Definition xf8 : N := 248. Definition xf9 : N := 249. Definition xfa : N := 250. Definition xfb : N := 251. Definition xfc : N := 252. Definition xfd : N := 253. Definition xfe : N := 254. Definition xff : N := 255.
+
 Definition obytes_eqb (a b : option (list byte)) : bool :=
   match a, b with
   | Some x, Some y => bytes_eqb x y
@@ -12,18 +47,21 @@ Definition obytes_eqb (a b : option (list byte)) : bool :=
 
 Record scase := {
   sc_v : sval;
-  (* implementation, zlink_core::verif::to_slice(v, buf[..n]) per tried n:
-     (n, 0) Ok with bytes = sc_out; (n, 1) BufferTooSmall; (n, 2) KeyMustBeAString;
-     (n, 3) Ok with bytes different from sc_out *)
-  sc_sweep : list (N * N);
+  (* implementation, zlink_core::verif::to_slice(v, buf[..n]) for every n in lo..=hi:
+     (lo, hi, 0) Ok with bytes = sc_out; 1 BufferTooSmall; 2 KeyMustBeAString;
+     3 Ok with bytes different from sc_out *)
+  sc_sweep : list (N * N * N);
   sc_out : option (list byte);     (* bytes of the successful run with the largest n, if any *)
-  sc_serde : option (list byte);   (* serde_json::to_vec(v); None = serde_json refused *)
+  (* serde_json::to_vec(v): 0 = refused, 1 = the same bytes as sc_out, 2 = the bytes sc_serde_x *)
+  sc_serde : N;
+  sc_serde_x : list byte;
   (* send path, Connection::send_reply(&Reply{parameters: Some(v), continues}) with the frame
      captured from the socket (same frame at every tried initial free space, checked by the driver):
-     0 = not run; 1 = frame in sc_frame; 2 = refused with a JSON error *)
+     0 = not run; 1 = the frame is `{"parameters":` sc_out [`,"continues":b`] `}`;
+     2 = refused with a JSON error; 3 = the frame is sc_frame_x *)
   sc_send : N;
   sc_cont : option bool;           (* the `continues` member *)
-  sc_frame : list byte
+  sc_frame_x : list byte
 }.
 
 Definition name_Reply : list byte := [82; 101; 112; 108; 121].
@@ -36,6 +74,23 @@ Definition reply_wrap (v : sval) (cont : option bool) : sval :=
   | Some c => SStruct name_Reply 2 [(name_parameters, SSome v); (name_continues, SSome (SBool c))]
   end.
 
+(* the text of that frame around the text of the parameters *)
+Definition wrap_text (o : list byte) (cont : option bool) : list byte :=
+  [123; 34] ++ name_parameters ++ [34; 58] ++ o ++
+  match cont with
+  | None => []
+  | Some c => [44; 34] ++ name_continues ++ [34; 58] ++ ref_bool c
+  end ++ [125].
+
+Definition serde_bytes (c : scase) : option (list byte) :=
+  match sc_serde c with 0 => None | 1 => sc_out c | _ => Some (sc_serde_x c) end.
+Definition frame_bytes (c : scase) : list byte :=
+  match sc_send c, sc_out c with
+  | 1, Some o => wrap_text o (sc_cont c)
+  | _, _ => sc_frame_x c
+  end.
+Definition frame_given (c : scase) : bool := (sc_send c =? 1) || (sc_send c =? 3).
+
 Definition model_code (c : scase) (n : N) : N :=
   match zser (sc_v c) n with
   | Ok bs => if obytes_eqb (Some bs) (sc_out c) then 0 else 3
@@ -44,20 +99,27 @@ Definition model_code (c : scase) (n : N) : N :=
   | Err Unreachable => 9
   end.
 
+(* all n in lo..=hi (count = hi - lo + 1 as fuel) *)
+Fixpoint range_all (f : N -> bool) (lo : N) (count : nat) : bool :=
+  match count with O => true | S k => f lo && range_all f (lo + 1) k end.
+Definition sweep_all (f : N -> N -> bool) (sw : list (N * N * N)) : bool :=
+  forallb (fun e => let '(lo, hi, code) := e in
+                    range_all (fun n => f n code) lo (N.to_nat (hi + 1 - lo))) sw.
+
 Definition big : N := 1048576.
 
 Definition model_bad (c : scase) : bool :=
-  negb (forallb (fun e => model_code c (fst e) =? snd e) (sc_sweep c)) ||
+  negb (sweep_all (fun n code => model_code c n =? code) (sc_sweep c)) ||
   match sc_send c with
-  | 1 => match zser (reply_wrap (sc_v c) (sc_cont c)) big with
-         | Ok bs => negb (bytes_eqb bs (sc_frame c))
-         | _ => true
-         end
+  | 0 => false
   | 2 => match zser (reply_wrap (sc_v c) (sc_cont c)) big with
          | Err KeyMustBeAString => false
          | _ => true
          end
-  | _ => false
+  | _ => match zser (reply_wrap (sc_v c) (sc_cont c)) big with
+         | Ok bs => negb (bytes_eqb bs (frame_bytes c))
+         | _ => true
+         end
   end.
 
 (* the property, on the implementation's results alone *)
@@ -67,25 +129,24 @@ Definition spec_bad (c : scase) : bool :=
       negb (obytes_eqb (ref_enc (sc_v c)) (Some bs)) ||              (* equals the reference *)
       negb (forallb (fun b => 32 <=? b) bs) ||                        (* no control byte, no NUL *)
       negb (keys_ok (sc_v c)) ||                                      (* bad keys are refused *)
-      negb (forallb (fun e => if N.of_nat (length bs) <=? fst e then snd e =? 0 else snd e =? 1)
-                    (sc_sweep c))                                     (* buffer contract *)
+      negb (sweep_all (fun n code => if N.of_nat (length bs) <=? n then code =? 0 else code =? 1)
+                      (sc_sweep c))                                   (* buffer contract *)
   | None => existsb (fun e => (snd e =? 0) || (snd e =? 3)) (sc_sweep c)
   end ||
-  match sc_send c with
-  | 1 => negb (obytes_eqb (ref_enc (reply_wrap (sc_v c) (sc_cont c))) (Some (sc_frame c))) ||
-         negb (keys_ok (sc_v c)) || negb (forallb (fun b => 32 <=? b) (sc_frame c))
-  | _ => false
-  end.
+  (frame_given c &&
+   (negb (obytes_eqb (ref_enc (reply_wrap (sc_v c) (sc_cont c))) (Some (frame_bytes c))) ||
+    negb (keys_ok (sc_v c)) || negb (forallb (fun b => 32 <=? b) (frame_bytes c)))).
 
 (* serde_json itself against the reference encoder (ties the spec to the real serde_json) *)
-Definition ref_bad (c : scase) : bool := negb (obytes_eqb (ref_enc (sc_v c)) (sc_serde c)).
+Definition ref_bad (c : scase) : bool := negb (obytes_eqb (ref_enc (sc_v c)) (serde_bytes c)).
 
 (* 0 = all agree; bit 0 = implementation differs from the model; bit 1 = implementation differs
    from the specification; bit 2 = serde_json differs from the reference encoder *)
 Definition check (c : scase) : N :=
   (if model_bad c then 1 else 0) + (if spec_bad c then 2 else 0) + (if ref_bad c then 4 else 0).
 
-(* for replay files *)
+(* for replay files: the model's code at both ends of every swept range, the reference encoding,
+   the model's frame *)
 Definition show (c : scase) :=
-  (map (fun e => (fst e, model_code c (fst e))) (sc_sweep c), ref_enc (sc_v c),
-   zser (reply_wrap (sc_v c) (sc_cont c)) big).
+  (map (fun e => let '(lo, hi, code) := e in (lo, model_code c lo, hi, model_code c hi)) (sc_sweep c),
+   ref_enc (sc_v c), zser (reply_wrap (sc_v c) (sc_cont c)) big).
